@@ -113,6 +113,28 @@ type c05Env struct {
 
 	nodeB    *test.Node
 	blk1ForB module.BlockData
+
+	sigPrefix string // set while the validator-set history family runs
+}
+
+func (e *c05Env) ensureNodeB() {
+	if e.nodeB != nil {
+		return
+	}
+	e.nodeB = test.NewNode(e.t, test.UseGenesis(e.gs), test.UseWallet(c05Wallet(0x73)), test.SetTimeoutPropose(time.Hour))
+	c05Quiet(e.nodeB)
+	if err := e.nodeB.CS.Start(); err != nil {
+		panic(err)
+	}
+	h, nv, before := consensus.VerifC05EngineState(e.nodeB.CS)
+	if h != 1 || nv != e.n || !before {
+		panic(fmt.Sprintf("harness: engine state h=%d validators=%d", h, nv))
+	}
+	bd, err := e.nodeB.BM.NewBlockDataFromReader(bytes.NewReader(e.blk1Bytes))
+	if err != nil {
+		panic(err)
+	}
+	e.blk1ForB = bd
 }
 
 func c05Quiet(n *test.Node) {
@@ -353,8 +375,9 @@ func (c *c05Checker) count(m *sync.Map, p string) {
 }
 
 type c05Case struct {
-	Spec  c05Spec `json:"spec"`
-	Point string  `json:"point"`
+	Spec     c05Spec        `json:"spec"`
+	Point    string         `json:"point"`
+	Scenario *c05VSScenario `json:"scenario,omitempty"` // validator-set history family
 }
 
 func (c *c05Checker) why(x c05Expect, n int) string {
@@ -374,7 +397,11 @@ func (c *c05Checker) why(x c05Expect, n int) string {
 // judge compares one entry point's verdict with the statement.
 func (c *c05Checker) judge(e *c05Env, s c05Spec, x c05Expect, point string, accepted bool, panicked string, detail string) {
 	c.r.Eval(1)
-	cs := c05Case{s, point}
+	strictPoint := point != c05PProcess
+	if e.sigPrefix != "" {
+		point = point + "(" + strings.TrimSuffix(e.sigPrefix, ":") + ")"
+	}
+	cs := c05Case{Spec: s, Point: point}
 	if panicked != "" {
 		what := c.why(x, e.n)
 		if what == "" {
@@ -393,7 +420,6 @@ func (c *c05Checker) judge(e *c05Env, s c05Spec, x c05Expect, point string, acce
 	} else {
 		c.count(&c.rejected, point)
 	}
-	strictPoint := point != c05PProcess
 	switch {
 	case accepted && !x.sound:
 		c.violation(fmt.Sprintf("accepted-without-two-thirds[%s]@%s", c.why(x, e.n), point),
@@ -424,7 +450,7 @@ func (e *c05Env) eval(c *c05Checker, s c05Spec, points map[string]bool) {
 		c.judge(e, s, x, c05PVerify, p == "" && err == nil, p, fmt.Sprintf("(err=%v)", err))
 		if p == "" && err == nil && x.strict {
 			if fmt.Sprint(voted) != fmt.Sprint(x.voted) {
-				c.violation("voted-bitmap-wrong@VerifyBlock", fmt.Sprintf("%v: voted=%v want %v", s, voted, x.voted), c05Case{s, c05PVerify})
+				c.violation("voted-bitmap-wrong@VerifyBlock", fmt.Sprintf("%v: voted=%v want %v", s, voted, x.voted), c05Case{Spec: s, Point: c05PVerify})
 			}
 		}
 	}
@@ -499,25 +525,10 @@ func (e *c05Env) eval(c *c05Checker, s c05Spec, points map[string]bool) {
 		c.judge(e, s, x, c05PPropose, p == "" && err == nil, p, detail)
 	}
 	if points[c05PProcess] {
-		if e.nodeB == nil {
-			e.nodeB = test.NewNode(e.t, test.UseGenesis(e.gs), test.UseWallet(c05Wallet(0x73)), test.SetTimeoutPropose(time.Hour))
-			c05Quiet(e.nodeB)
-			if err := e.nodeB.CS.Start(); err != nil {
-				panic(err)
-			}
-			h, nv, before := consensus.VerifC05EngineState(e.nodeB.CS)
-			if h != 1 || nv != e.n || !before {
-				panic(fmt.Sprintf("harness: engine state h=%d validators=%d", h, nv))
-			}
-			bd, err := e.nodeB.BM.NewBlockDataFromReader(bytes.NewReader(e.blk1Bytes))
-			if err != nil {
-				panic(err)
-			}
-			e.blk1ForB = bd
-		}
+		e.ensureNodeB()
 		consumed, rejected, p := consensus.VerifC05ProcessBlock(e.nodeB.CS, e.blk1ForB, list.Bytes())
 		if p == "" && consumed == rejected {
-			c.violation("neither-consumed-nor-rejected@processBlock", fmt.Sprintf("%v consumed=%v rejected=%v", s, consumed, rejected), c05Case{s, c05PProcess})
+			c.violation("neither-consumed-nor-rejected@processBlock", fmt.Sprintf("%v consumed=%v rejected=%v", s, consumed, rejected), c05Case{Spec: s, Point: c05PProcess})
 		}
 		c.judge(e, s, x, c05PProcess, p == "" && consumed, p, "")
 		if consumed {
@@ -569,9 +580,10 @@ func c05Items(s c05Spec) int {
 }
 
 // c05Space enumerates the lists for n validators.
-//   full      full product of item kinds (8^n) x dup variants
-//   otherwise all valid/absent subsets x (no mutation | one position replaced by one bad kind) x dup variants
-//   perms     additionally every order of the items
+//
+//	full      full product of item kinds (8^n) x dup variants
+//	otherwise all valid/absent subsets x (no mutation | one position replaced by one bad kind) x dup variants
+//	perms     additionally every order of the items
 func c05Space(n int, full, perms bool, rounds []int32, fn func(s c05Spec)) {
 	emit := func(kinds []int, round int32) {
 		anyValid := false
@@ -638,6 +650,7 @@ func c05Space(n int, full, perms bool, rounds []int32, fn func(s c05Spec)) {
 }
 
 type c05Plan struct {
+	VSets  string   `json:"validator_set_history,omitempty"` // "standalone" | "engine"
 	N      int      `json:"n"`
 	Full   bool     `json:"full_product"`
 	Perms  bool     `json:"all_item_orders"`
@@ -645,6 +658,7 @@ type c05Plan struct {
 	Points []string `json:"entry_points"`
 	Lists  int64    `json:"lists"`
 	Done   bool     `json:"complete"`
+	WallS  float64  `json:"wall_s"`
 }
 
 func TestVerifC05(t *testing.T) {
@@ -676,6 +690,11 @@ func TestVerifC05(t *testing.T) {
 	if ev.Replaying() {
 		var cs c05Case
 		ev.ReplayCase(&cs)
+		if cs.Scenario != nil {
+			c05NewVS(c).run(*cs.Scenario)
+			r.Finish(false)
+			return
+		}
 		e, serr := c05NewEnv(cs.Spec.N)
 		defer e.close()
 		if serr != nil {
@@ -699,6 +718,8 @@ func TestVerifC05(t *testing.T) {
 			{N: 5, Rounds: []int32{0}, Points: all},
 			{N: 6, Rounds: []int32{0}, Points: cheap},
 			{N: 7, Rounds: []int32{0}, Points: cheap},
+			{N: 4, VSets: "standalone", Points: []string{c05PVerify, "toVoteList"}},
+			{N: 4, VSets: "engine", Rounds: []int32{0}, Points: all},
 		}
 	} else {
 		plans = []*c05Plan{
@@ -711,6 +732,8 @@ func TestVerifC05(t *testing.T) {
 			{N: 5, Rounds: []int32{1}, Points: all},
 			{N: 6, Rounds: []int32{0, 1}, Points: all},
 			{N: 7, Rounds: []int32{0, 1}, Points: all},
+			{N: 4, VSets: "standalone", Points: []string{c05PVerify, "toVoteList"}},
+			{N: 4, VSets: "engine", Rounds: []int32{0}, Points: all},
 		}
 	}
 	var stop int32
@@ -718,6 +741,27 @@ func TestVerifC05(t *testing.T) {
 	sampled := map[string]bool{}
 	ev.Par(len(plans), len(plans), func(pi int) {
 		pl := plans[pi]
+		t0 := time.Now()
+		defer func() { pl.WallS = time.Since(t0).Seconds() }()
+		if pl.VSets == "standalone" {
+			vs := c05NewVS(c)
+			scs := c05VSScenarios(r.Thorough())
+			ev.Par(len(scs), 8, func(i int) {
+				if atomic.LoadInt32(&stop) != 0 {
+					return
+				}
+				if i%64 == 0 && r.Expired() {
+					atomic.StoreInt32(&stop, 1)
+					return
+				}
+				vs.run(scs[i])
+				atomic.AddInt64(&pl.Lists, 1)
+				r.Nontrivial("vs:" + scs[i].String())
+			})
+			r.Eval(int(atomic.LoadInt64(&vs.evals)))
+			pl.Done = atomic.LoadInt32(&stop) == 0
+			return
+		}
 		e, serr := c05NewEnv(pl.N)
 		defer e.close()
 		if serr != nil {
@@ -725,10 +769,15 @@ func TestVerifC05(t *testing.T) {
 			for i := range all {
 				all[i] = c05Valid
 			}
-			c.violation("valid-certificate-rejected@Propose(setup)", serr.Error(), c05Case{c05Spec{N: pl.N, Kinds: all}, c05PPropose})
+			c.violation("valid-certificate-rejected@Propose(setup)", serr.Error(), c05Case{Spec: c05Spec{N: pl.N, Kinds: all}, Point: c05PPropose})
 			return
 		}
 		pts := toSet(pl.Points)
+		if pl.VSets == "engine" {
+			pl.Lists = int64(e.vsEngineFamily(c, pts, &stop))
+			pl.Done = atomic.LoadInt32(&stop) == 0
+			return
+		}
 		var specs []c05Spec
 		c05Space(pl.N, pl.Full, pl.Perms, pl.Rounds, func(s c05Spec) { specs = append(specs, s) })
 		heavy := pts[c05PImport] || pts[c05PPropose] || pts[c05PProcess]
